@@ -1160,8 +1160,16 @@ def pag_to_mag(graph):
 
     # construct the final MAG
 
+    mag.add_nodes_from(copy_graph.nodes)
+
     for u, v in copy_graph.directed_edges:
         mag.add_edge(u, v, mag.directed_edge_name)
+
+    for u, v in copy_graph.bidirected_edges:
+        mag.add_edge(u, v, mag.bidirected_edge_name)
+
+    for u, v in copy_graph.undirected_edges:
+        mag.add_edge(u, v, mag.undirected_edge_name)
 
     for u, v in temp_cpdag.directed_edges:
         mag.add_edge(u, v, mag.directed_edge_name)
